@@ -69,11 +69,39 @@ func c19Parse(body string) ([]*html.Node, bool) {
 		}
 		return []*html.Node{d}, full
 	}
-	ns, err := html.ParseFragment(strings.NewReader(body), &html.Node{Type: html.ElementNode, Data: "body", DataAtom: atom.Body})
+	ns, err := html.ParseFragment(strings.NewReader(body), c19Context(body))
 	if err != nil {
 		return nil, full
 	}
 	return ns, full
+}
+
+// the context a fragment is read in: a fragment that begins with a table-scoped element is the inside
+// of that element's HTML5 parent (a row of a table body, a cell of a row, ...); anything else is body
+// content. Decided from the first token the HTML tokenizer produces, not by string matching.
+func c19Context(body string) *html.Node {
+	z := html.NewTokenizer(strings.NewReader(body))
+	for {
+		tt := z.Next()
+		if tt == html.TextToken && strings.TrimSpace(string(z.Text())) == "" {
+			continue
+		}
+		if tt == html.StartTagToken || tt == html.SelfClosingTagToken {
+			name, _ := z.TagName()
+			switch string(name) {
+			case "td", "th":
+				return &html.Node{Type: html.ElementNode, Data: "tr", DataAtom: atom.Tr}
+			case "tr":
+				return &html.Node{Type: html.ElementNode, Data: "tbody", DataAtom: atom.Tbody}
+			case "thead", "tbody", "tfoot", "caption", "colgroup":
+				return &html.Node{Type: html.ElementNode, Data: "table", DataAtom: atom.Table}
+			case "col":
+				return &html.Node{Type: html.ElementNode, Data: "colgroup", DataAtom: atom.Colgroup}
+			}
+		}
+		break
+	}
+	return &html.Node{Type: html.ElementNode, Data: "body", DataAtom: atom.Body}
 }
 
 var c19MustacheRe = regexp.MustCompile(`\{\{.*?\}\}`)
@@ -156,7 +184,7 @@ func c19Stable(body string) bool {
 		n2 = []*html.Node{d}
 	} else {
 		var err error
-		n2, err = html.ParseFragment(bytes.NewReader(buf.Bytes()), &html.Node{Type: html.ElementNode, Data: "body", DataAtom: atom.Body})
+		n2, err = html.ParseFragment(bytes.NewReader(buf.Bytes()), c19Context(body))
 		if err != nil {
 			return false
 		}
@@ -360,6 +388,36 @@ func runC19(r *Run) {
 			body = "---\ntitle: " + c02Word(rr) + "\nlayout: base\nitems:\n  - a\n  - \"b: c\"\n---\n" + body
 		case 2:
 			body = "---\n# comment --- inside\nx: 1\n---\n\n" + body + "\n"
+		case 5:
+			// a fragment whose first element is table-scoped (a row, a cell, a section, a column), written with
+			// every kind of white space after the tag name (one attribute per line is common Vue style)
+			ws := Pick(rr, []string{" ", "\n  ", "\t", "\n", " \n", "\r\n  "})
+			at := strings.TrimPrefix(c19Attrs(rr), " ")
+			open := func(t string) string {
+				if at == "" {
+					return "<" + Pick(rr, []string{t, strings.ToUpper(t)}) + Pick(rr, []string{"", ws}) + ">"
+				}
+				return "<" + Pick(rr, []string{t, strings.ToUpper(t)}) + ws + at + Pick(rr, []string{"", "\n"}) + ">"
+			}
+			cell := "<td>" + c19Inline(rr, 1) + "</td>"
+			switch rr.Intn(6) {
+			case 0:
+				body = open("tr") + cell + cell + "</tr>"
+			case 1:
+				body = open("td") + c19Inline(rr, 1) + "</td><td>x</td>"
+			case 2:
+				body = open("th") + c19Inline(rr, 0) + "</th>"
+			case 3:
+				body = open(Pick(rr, []string{"tbody", "thead", "tfoot"})) + "<tr>" + cell + "</tr>" + "</tbody>"
+				body = strings.Replace(body, "</tbody>", "</"+strings.ToLower(body[1:6])+">", 1)
+			case 4:
+				body = open("caption") + c19Inline(rr, 0) + "</caption><tbody><tr>" + cell + "</tr></tbody>"
+			default:
+				body = open("colgroup") + "<col span=\"2\"><col></colgroup><tbody><tr>" + cell + "</tr></tbody>"
+			}
+			if rr.Intn(3) == 0 {
+				body = Pick(rr, []string{"\n", "  ", "\n\n"}) + body
+			}
 		}
 		srcs = append(srcs, src{fmt.Sprintf("gen%d", i), body, "generated"})
 	}
